@@ -19,6 +19,11 @@ Local Open Scope string_scope.
 Fixpoint bs (l : list nat) : string :=
   match l with [] => EmptyString | n :: r => String (Ascii.ascii_of_nat n) (bs r) end.
 
+Definition c_tab : string := String (Ascii.ascii_of_nat 9) EmptyString.
+Definition c_nl : string := String (Ascii.ascii_of_nat 10) EmptyString.
+Definition c_cr : string := String (Ascii.ascii_of_nat 13) EmptyString.
+Definition cat (l : list string) : string := String.concat EmptyString l.
+
 Record dimcase := {
   dc_name : string;
   dc_table : list (string * nat);
